@@ -268,6 +268,33 @@ func c12CountsLen(c *Ctx) {
 						if !c12Normalised(fn, ld, viaPhi, r, guards, isBuckets) {
 							okFn, why = false, "Counts is indexed without first making len(Counts) equal len(Buckets) (panics or shows no bucket before the first Add)"
 						}
+					case *ssa.Return:
+						// a normalising helper: returns Counts only where the lengths are known equal
+						// (or the φ of Counts-when-equal and a fresh slice)
+						if viaPhi != nil {
+							if !c12Normalised(fn, ld, viaPhi, r, guards, isBuckets) {
+								okFn, why = false, "Counts is returned without the lengths having been made equal"
+							}
+							continue
+						}
+						okRet := false
+						for _, f := range factsAt(x.Block()) {
+							bo, isBo := f.Cond.(*ssa.BinOp)
+							if isBo && isLenCmp(bo) && (bo.Op == token.EQL && f.Val || bo.Op == token.NEQ && !f.Val) {
+								okRet = true
+							}
+						}
+						stored := false
+						eachInstr(fn, func(j ssa.Instruction) {
+							if st, isSt := j.(*ssa.Store); isSt {
+								if fa, isFA := st.Addr.(*ssa.FieldAddr); isFA && fieldName(fa.X.Type(), fa.Field) == "Counts" {
+									stored = true
+								}
+							}
+						})
+						if !okRet || stored {
+							okFn, why = false, "Counts is returned without the lengths being known equal"
+						}
 					case *ssa.Store:
 						// storing the slice elsewhere
 						if x.Val == v {
